@@ -1,6 +1,265 @@
+import Model.Streams
 import Driver.Util
 namespace Driver.C08
-/-- placeholder: replaced when the property's model is built -/
-def step (_ : Unit) (_ : List String) : Unit × String := ((), "unimplemented")
-def init : Unit := ()
+open Streams
+
+/-! line protocol (every line is a self-contained scenario, the driver is stateless):
+
+  seq <proto> <op> <op> …
+      sequential big-step semantics (`Streams.seqOp`), one answer token per op:
+        g        GetStream            → `<id>:t` | `0:f`
+        c<id>    Clear(id)            → `T` | `F` | `crash:index` | `crash:negative`
+        (thread scripts only) r = Clear(id acquired most recently by this thread and not yet
+                 released through r), Available if there is none
+        a        Available            → `a=<n>`
+        G<cnt>   cnt × GetStream      → `G=<successes>/<xor of ids>/<sum of ids>/<last id>`
+        s        bitset               → `s=<i:hex|i-j:hex,…>` (non-zero words, equal runs compressed) | `s=-`
+  conc <proto> <k> P <seq ops…> T <ops of thread 0> T <ops of thread 1> … S <digits>
+      lock-step run of the small-step machine (`Streams.step`): after the sequential prefix P,
+      the k threads run their scripts; each digit of the schedule lets that thread perform ONE
+      atomic operation; after the schedule the unfinished threads run to completion in index order.
+      answer: one token per scheduling decision
+        `<t>:y<k>`          thread t is now parked in front of the atomic operation `yield(k)`
+        `<t>:<ret>:y<k>`    its call returned <ret>; now parked at the first yield of its next call
+        `<t>:<ret>:d`       returned and finished its script
+        `<t>:-`             thread already finished (decision ignored)
+      followed by `| a=<Available> s=<bitset>`
+  mon conc …   same scenario; answer `ok` iff the property's monitors (ids unique and in range, no
+      panic, Available = free ids at the end) hold along the run, `n/a` if the scripts do not respect
+      the client protocol (a Clear of an id that is not held, or two Clears of one id)
+-/
+
+def hexWord (w : Word) : String := String.ofList (Nat.toDigits 16 w.toNat)
+
+/-- non-zero words, runs of equal words compressed: `i:hex` or `i-j:hex` -/
+def showState (ws : List Word) : String :=
+  let rec go (i : Nat) (l : List Word) (acc : List String) : List String :=
+    match l with
+    | [] => acc.reverse
+    | w :: r =>
+      let run := (r.takeWhile (· = w)).length
+      let r' := r.drop run
+      let item := if run = 0 then toString i ++ ":" ++ hexWord w
+                  else toString i ++ "-" ++ toString (i + run) ++ ":" ++ hexWord w
+      go (i + run + 1) r' (if w = 0#64 then acc else item :: acc)
+  termination_by l.length
+  decreasing_by simp; omega
+  match go 0 ws [] with
+  | [] => "s=-"
+  | l => "s=" ++ ",".intercalate l
+
+def showRet : Option Ret → String
+  | some (.stream id ok) => toString id ++ (if ok then ":t" else ":f")
+  | some (.cleared b) => if b then "T" else "F"
+  | some (.avail n) => "a=" ++ toString n
+  | some .crashIndex => "crash:index"
+  | some .crashNegative => "crash:negative"
+  | none => "stuck"
+
+def parseOp (w : String) : Option Op :=
+  if w == "g" then some .get
+  else if w == "a" then some .avail
+  else if w.startsWith "c" then (w.drop 1).toNat?.map Op.clear
+  else none
+
+def getN : Nat → Shared → Nat → Nat → Nat → Nat → Shared × String
+  | 0, sh, succ, x, sum, last =>
+    (sh, "G=" ++ toString succ ++ "/" ++ toString x ++ "/" ++ toString sum ++ "/" ++ toString last)
+  | c + 1, sh, succ, x, sum, last =>
+    match getStream sh with
+    | (sh', some (.stream id true)) => getN c sh' (succ + 1) (x ^^^ id) (sum + id) id
+    | (sh', _) => getN c sh' succ x sum last
+
+/-- one sequential op token -/
+def seqTok (sh : Shared) (w : String) : Option (Shared × String) :=
+  if w == "s" then some (sh, showState sh.words)
+  else if w.startsWith "G" then
+    match (w.drop 1).toNat? with
+    | some c => some (getN c sh 0 0 0 0)
+    | none => none
+  else match parseOp w with
+    | some op => let r := seqOp sh op; some (r.1, showRet r.2)
+    | none => none
+
+def seqRun : Shared → List String → List String → Option (Shared × List String)
+  | sh, [], acc => some (sh, acc.reverse)
+  | sh, w :: ws, acc =>
+    match seqTok sh w with
+    | some (sh', a) => seqRun sh' ws (a :: acc)
+    | none => none
+
+/-- script op of a thread: a fixed op, or `r` = Clear(the id this thread acquired most recently and
+    has not yet released), Available if there is none -/
+inductive SOp where
+  | op (o : Op)
+  | rel
+
+def parseSOp (w : String) : Option SOp :=
+  if w == "r" then some .rel else (parseOp w).map .op
+
+structure Conc where
+  st : State
+  scripts : List (List SOp)
+  mine : List (List Nat)
+
+def resolve (mine : List Nat) : SOp → Op × List Nat
+  | .op o => (o, mine)
+  | .rel => match mine with
+    | id :: r => (.clear id, r)
+    | [] => (.avail, [])
+
+def nextYield (script : List SOp) (mine : List Nat) : String :=
+  match script with
+  | [] => "d"
+  | op :: _ => "y" ++ toString (startPC (resolve mine op).1).yieldPoint
+
+/-- scheduling decision: thread t performs one atomic operation -/
+def concStep (c : Conc) (t : Nat) : Conc × String :=
+  match c.st.threads[t]? with
+  | none => (c, toString t ++ ":bad")
+  | some pc =>
+    let script := c.scripts.getD t []
+    let mine := c.mine.getD t []
+    let (act, script', mine') : Option Action × List SOp × List Nat :=
+      if pc = .idle then
+        match script with
+        | [] => (none, [], mine)
+        | op :: rest => let r := resolve mine op; (some (.start t r.1), rest, r.2)
+      else (some (.step t), script, mine)
+    match act with
+    | none => (c, toString t ++ ":-")
+    | some a =>
+      match Streams.step c.st a with
+      | none => (c, toString t ++ ":stuck")
+      | some (st', r) =>
+        let mine'' := match r with
+          | some (.stream id true) => id :: mine'
+          | _ => mine'
+        let c' : Conc := { st := st', scripts := c.scripts.set t script', mine := c.mine.set t mine'' }
+        match r with
+        | some _ => (c', toString t ++ ":" ++ showRet r ++ ":" ++ nextYield script' mine'')
+        | none => (c', toString t ++ ":y" ++ toString ((st'.threads.getD t .idle).yieldPoint))
+
+def threadDone (c : Conc) (t : Nat) : Bool :=
+  (c.st.threads.getD t .idle) = .idle && (c.scripts.getD t []).isEmpty
+
+/-- run thread t alone until its script is finished (fuel: it cannot spin when running alone) -/
+def finishThread : Nat → Conc → Nat → List String → Conc × List String
+  | 0, c, _, acc => (c, acc)
+  | f + 1, c, t, acc =>
+    if threadDone c t then (c, acc)
+    else let (c', o) := concStep c t; finishThread f c' t (o :: acc)
+
+def finishAll (c : Conc) (k : Nat) (acc : List String) : Conc × List String :=
+  (List.range k).foldl (fun (p : Conc × List String) t =>
+    finishThread ((p.1.scripts.getD t []).length * (p.1.st.sh.words.length + 8) + p.1.st.sh.words.length + 8) p.1 t p.2) (c, acc)
+
+def splitOn (sep : String) (ws : List String) : List (List String) :=
+  let rec go (l : List String) (cur : List String) (acc : List (List String)) : List (List String) :=
+    match l with
+    | [] => (cur.reverse :: acc).reverse
+    | w :: r => if w == sep then go r [] (cur.reverse :: acc) else go r (w :: cur) acc
+  go ws [] []
+
+/-- cache of pre-filled generators: `G<c>` as first token of a sequential prefix is by far the most
+    expensive part of a scenario and is shared by many scenarios (semantically transparent) -/
+abbrev Cache := List ((Nat × Nat) × Shared)
+
+def prefix? (w : String) : Option Nat := if w.startsWith "G" then (w.drop 1).toNat? else none
+
+/-- run a sequential token list from `New(proto)`, going through the cache for a leading `G<c>` -/
+def seqFrom (cache : Cache) (proto : Nat) (toks : List String) : Cache × Option (Shared × List String) :=
+  match toks with
+  | w :: rest =>
+    match prefix? w with
+    | some c =>
+      match cache.lookup (proto, c) with
+      | some sh =>
+        -- the digest of the G token is recomputed only when somebody looks at it (seq lines)
+        (cache, (seqRun sh rest []).map (fun r => (r.1, "G" :: r.2)))
+      | none =>
+        match seqTok (Streams.init (wordsOfProto proto)) w with
+        | some (sh, a) =>
+          (((proto, c), sh) :: cache.take 300, (seqRun sh rest []).map (fun r => (r.1, a :: r.2)))
+        | none => (cache, none)
+    | none => (cache, seqRun (Streams.init (wordsOfProto proto)) toks [])
+  | [] => (cache, seqRun (Streams.init (wordsOfProto proto)) [] [])
+
+/-- non-reserved ids whose bit is set -/
+def idsInUse (ws : List Word) : List Nat :=
+  let rec go (i : Nat) (l : List Word) (acc : List Nat) : List Nat :=
+    match l with
+    | [] => acc.reverse
+    | w :: r =>
+      go (i + 1) r (if w = 0#64 then acc else
+        (List.range 64).foldl (fun acc j => if w.getLsbD (streamOffset j) && (i * 64 + j != 0) then (i * 64 + j) :: acc else acc) acc)
+  go 0 ws []
+
+def clearIds (scripts : List (List SOp)) : List Nat :=
+  scripts.flatten.filterMap (fun o => match o with | .op (.clear id) => some id | _ => none)
+
+/-- result of a lock-step scenario: observations, final machine state, whether the scripts respect
+    the client protocol of the property (static criterion, the same as in the harness) -/
+def runConc (cache : Cache) (proto k : Nat) (rest : List String) : Cache × Option (List String × State × Bool) :=
+  -- rest = P pre… T ops… T ops… S digits
+  match rest with
+  | "P" :: rest =>
+    let (pre, rest) := rest.span (fun w => w != "T" && w != "S")
+    let (tpart, spart) := rest.span (fun w => w != "S")
+    let scriptsW := (splitOn "T" tpart).drop 1
+    let sched : List Nat := match spart with
+      | ["S", d] => (d.toList.filter Char.isDigit).map (fun ch => ch.toNat - '0'.toNat)
+      | _ => []
+    match seqFrom cache proto pre, scriptsW.mapM (fun l => l.mapM parseSOp) with
+    | (cache', some (sh, _)), some scripts =>
+      if scripts.length ≠ k then (cache', none) else
+      let inuse0 := idsInUse sh.words
+      let cl := clearIds scripts
+      let protocol := cl.all (fun id => inuse0.contains id) && cl.eraseDups.length == cl.length
+      let st0 : State := { sh := sh, threads := List.replicate k .idle, held := inuse0 }
+      let c0 : Conc := { st := st0, scripts := scripts, mine := List.replicate k [] }
+      let (c1, acc) := sched.foldl (fun (p : Conc × List String) t =>
+          let (c', o) := concStep p.1 t; (c', o :: p.2)) (c0, [])
+      let (c2, acc) := finishAll c1 k acc
+      (cache', some (acc.reverse, c2.st, protocol))
+    | (cache', _), _ => (cache', none)
+  | _ => (cache, none)
+
+/-- the property's monitors evaluated on the model run (they can never fire: Proofs/C08) -/
+def monitorsOk (obs : List String) (st : State) : Bool :=
+  let n := 64 * st.sh.words.length
+  decide st.held.Nodup && st.held.all (fun id => 1 ≤ id && id < n)
+    && decide (available st.sh = ((n - 1 - st.held.length : Nat) : Int))
+    && obs.all (fun o => !(o.splitOn "crash").length > 1)
+
+def step (cache : Cache) (ws : List String) : Cache × String :=
+  match ws with
+  | "seq" :: p :: ops =>
+    match p.toNat? with
+    | some proto =>
+      -- sequential lines report the digest of every G token: no cache for the answer itself
+      match seqRun (Streams.init (wordsOfProto proto)) ops [] with
+      | some (_, l) => (cache, if l.isEmpty then "-" else " ".intercalate l)
+      | none => (cache, "bad-op")
+    | none => (cache, "bad-op")
+  | "conc" :: p :: k :: rest =>
+    match p.toNat?, k.toNat? with
+    | some proto, some k =>
+      match runConc cache proto k rest with
+      | (cache', some (obs, st, _)) =>
+        (cache', " ".intercalate obs ++ " | a=" ++ toString (available st.sh) ++ " " ++ showState st.sh.words)
+      | (cache', none) => (cache', "bad-op")
+    | _, _ => (cache, "bad-op")
+  | "mon" :: "conc" :: p :: k :: rest =>
+    -- spec-backed: `ok` = uniqueness / range / count / no-panic monitors hold along the run
+    match p.toNat?, k.toNat? with
+    | some proto, some k =>
+      match runConc cache proto k rest with
+      | (cache', some (obs, st, protocol)) =>
+        (cache', if !protocol then "n/a" else if monitorsOk obs st then "ok" else "violated:model")
+      | (cache', none) => (cache', "bad-op")
+    | _, _ => (cache, "bad-op")
+  | _ => (cache, "bad-op")
+
+def init : Cache := []
 end Driver.C08
